@@ -70,6 +70,7 @@ NodeConstraintRecord = recordclass('NodeConstraintRecord',
 class NodeSliver(BaseSliver):
 
     NAME_REGEX = r'^[\w\-\.]{2,255}$'
+    TYPE_CLASS = NodeType
 
     NodeConstraints = {
         NodeType.Server: NodeConstraintRecord(required_properties=['site'],
